@@ -65,7 +65,7 @@ func raceChild(seed uint64, n int) (available bool, note string, races []string,
 	go func() { done <- cmd.Wait() }()
 	select {
 	case <-done:
-	case <-time.After(10 * time.Minute):
+	case <-time.After(5 * time.Minute):
 		cmd.Process.Kill()
 		return true, "race child timed out", []string{"timeout"}, nil
 	}
